@@ -74,7 +74,7 @@ def write(pid, tier, seed, ob_rows, finding_rows, violations, harness_errors, no
         'wall_s': round(wall, 2),
         'violations': len(violations),
     }
-    d = os.path.join(VERIF, 'evidence')
+    d = os.environ.get('VF_EVIDENCE_DIR') or os.path.join(VERIF, 'evidence')
     os.makedirs(d, exist_ok=True)
     tmp = os.path.join(d, f'.{pid}.json.tmp')
     with open(tmp, 'w') as f:
